@@ -555,6 +555,22 @@ def big_products(rep):
     calls = ""
     for i, (n, b, cnt, bl) in enumerate(cases):
         calls += "    one<c12::messages::mf_%d_%d<char>, %d, %d>(%d, %dULL, %dULL);\n" % (n, b, n // 8, b // 8, i, cnt, bl)
+    # trait-level formulas (compile-time counts): group_traits / message_traits size_bytes for a flat group and a
+    # data-carrying group with compiled block length 64, per numInGroup width, with counts up to the type's maximum
+    tcases = []
+    for n in c12.TY:
+        nmax = 2 ** n - 1
+        for cnt in sorted({0, 1, min(nmax, 1000), min(nmax, 2 ** 16 - 1), min(nmax, 2 ** 16), min(nmax, 2 ** 25 - 1), min(nmax, 2 ** 25),
+                           min(nmax, 2 ** 26), min(nmax, 2 ** 26 + 1), min(nmax, 10 ** 8), min(nmax, 2 ** 31 - 1), min(nmax, 2 ** 31),
+                           min(nmax, 2 ** 32 - 1), min(nmax, 2 ** 40), min(nmax, 2 ** 55)}):
+            tcases.append((n, cnt))
+    for i, (n, cnt) in enumerate(tcases):
+        calls += ("    std::printf(\"TRAIT %d flat_group=%%llu flat_message=%%llu data_group=%%llu data_message=%%llu\\n\", "
+                  "(unsigned long long)sbepp::group_traits<c12::schema::messages::mt_%d::g>::size_bytes(static_cast<std::uint%d_t>(%dULL)), "
+                  "(unsigned long long)sbepp::message_traits<c12::schema::messages::mt_%d>::size_bytes(static_cast<std::uint%d_t>(%dULL)), "
+                  "(unsigned long long)sbepp::group_traits<c12::schema::messages::mtd_%d::g>::size_bytes(static_cast<std::uint%d_t>(%dULL), 5), "
+                  "(unsigned long long)sbepp::message_traits<c12::schema::messages::mtd_%d>::size_bytes(static_cast<std::uint%d_t>(%dULL), 5));\n"
+                  % (i, n, n, cnt, n, n, cnt, n, n, cnt, n, n, cnt))
     src = r'''
 #include <c12/c12.hpp>
 #include <cstdio>
@@ -587,6 +603,25 @@ int main()
             rep.violation("ubsan:" + msg_, f, "big products/%s: %s" % (cfg, line), {"config": str(cfg), "report": line})
         got = {int(mm.group(1)): (int(mm.group(2)), int(mm.group(3)), int(mm.group(4)))
                for mm in re.finditer(r"^BIG (\d+) group=(\d+) message=(\d+) size=(\d+)$", txt, re.M)}
+        tgot = {int(mm.group(1)): tuple(int(x) for x in mm.groups()[1:])
+                for mm in re.finditer(r"^TRAIT (\d+) flat_group=(\d+) flat_message=(\d+) data_group=(\d+) data_message=(\d+)$", txt, re.M)}
+        for i, (n, cnt) in enumerate(tcases):
+            rep.evaluation()
+            if i not in tgot:
+                rep.inconc("trait product case %d missing under %s" % (i, cfg))
+                continue
+            dim = (n + 16) // 8
+            fg = dim + cnt * 64
+            dg = dim + cnt * (64 + 1) + 5          # every entry: block + 1-byte length prefix; 5 payload bytes in total
+            exp = (fg, 8 + fg, dg, 8 + dg)
+            rep.count("trait_big_products", 4)
+            if cnt * 64 >= 2 ** 16:
+                rep.nontrivial("trait-big", n, cnt)
+            if tgot[i] != exp:
+                rep.violation("size-mismatch", "trait-size_bytes/big-product",
+                              "%s: numInGroup(uint%d)=%d, compiled blockLength 64: group_traits/message_traits size_bytes "
+                              "(flat group, flat message, data group, data message) = %s, expected %s" % (cfg, n, cnt, tgot[i], exp),
+                              {"config": str(cfg), "num_type": n, "numInGroup": cnt, "schema_xml": xml, "observed": tgot[i], "expected": exp})
         for i, (n, b, cnt, bl) in enumerate(cases):
             rep.evaluation()
             if i not in got:
